@@ -77,7 +77,7 @@ def bounded_enumeration(reg, tier, seed):
 
     class Ctx:
         _root = Root()
-    durations = [0.0, 0.25, 1.0, 8.25, 16.5, 20.5, 53.0, 66.0, 90.0, 98.0, 120.0] + [_f32(rng.uniform(0.01, 300.0)) for _ in range(20 if tier == "quick" else 2000)]
+    durations = [0.0, 0.25, 1.0, 8.25, 16.5, 20.5, 53.0, 66.0, 90.0, 98.0, 120.0, _f32(1e-10), _f32(1e-20), _f32(1.1754944e-38), _f32(5e-9), _f32(3600.0), _f32(1e30)] + [_f32(rng.uniform(0.01, 300.0)) for _ in range(20 if tier == "quick" else 2000)]
     step = 7 if tier == "quick" else 1
     for dur in durations:
         Ctx._root.duration = dur
